@@ -6057,7 +6057,13 @@ impl WalStorePort for FilesystemWalStore {
     }
 
     fn read_snapshot(&self) -> Result<WalStoreSnapshot, WalStoreError> {
-        let (frames, commits, _) = read_filesystem_segments(&self.root)?;
+        let (frames, commits, torn_tail) = read_filesystem_segments(&self.root)?;
+        if torn_tail {
+            // A partially written record is an uncommitted tail. Hiding it from
+            // trusted local recovery would let the caller append behind the torn
+            // bytes, after which no segment reader can parse the file again.
+            return Err(WalStoreError::SegmentHasUncommittedTail(self.segment_id));
+        }
         Ok(WalStoreSnapshot { frames, commits })
     }
 
